@@ -135,23 +135,39 @@ Proof. exact proc_first_call. Qed.
 Print Assumptions C07_proc_first_call.
 
 (* one call on an object that holds its previous reading [prev] (if any), whatever cpu_count()
-   answers now or answered before: 100 * cpu seconds / wall seconds since that reading (blocking:
-   over the interval), 0 if no wall time elapsed; afterwards the object holds this call's last reading *)
+   answers now or answered before.  A reading is the wall clock r_t and the five tick counters of
+   the pcputimes tuple (r_u user, r_s system, r_cu children_user, r_cs children_system, r_io iowait),
+   ALL arbitrary.  The value is 100 * (delta user + delta system)/CLOCK_TICKS / delta wall since that
+   reading (blocking: over the interval), 0 if no wall time elapsed -- children_user,
+   children_system and iowait do not count, however they move; afterwards the object holds this
+   call's last reading. *)
 Theorem C07_proc_percent_formula : forall clk st e prev,
+  let pct (a b : preading) :=
+    if qzero (r_t b - r_t a) then 0
+    else 100 * secs clk ((r_u b - r_u a) + (r_s b - r_s a)) / (r_t b - r_t a) in
   match prev with Some p => holds clk st p | None => st = p_init end ->
   pe_iv e <> INeg ->
   out_eq Qeq (snd (proc_step clk st e))
              (match pe_iv e with
-              | IPos => Val (spec_proc_pct clk (pe_first e) (pe_t2 e, pe_u2 e, pe_s2 e))
-              | _ => match prev with Some p => Val (spec_proc_pct clk p (pe_first e)) | None => Val 0 end
+              | IPos => Val (pct (pe_r1 e) (pe_r2 e))
+              | _ => match prev with Some p => Val (pct p (pe_r1 e)) | None => Val 0 end
               end)
   /\ holds clk (fst (proc_step clk st e)) (pe_last e).
 Proof. exact proc_step_spec. Qed.
 Print Assumptions C07_proc_percent_formula.
 
+(* the demanded value does not depend on the three other counters of the tuple *)
+Theorem C07_proc_decoys_do_not_count : forall clk a b cu cs io cu' cs' io',
+  spec_proc_pct clk {| r_t := r_t a; r_u := r_u a; r_s := r_s a; r_cu := cu; r_cs := cs; r_io := io |}
+                    {| r_t := r_t b; r_u := r_u b; r_s := r_s b; r_cu := cu'; r_cs := cs'; r_io := io' |}
+  = spec_proc_pct clk a b.
+Proof. exact spec_proc_pct_decoys. Qed.
+Print Assumptions C07_proc_decoys_do_not_count.
+
 (* every sequence of calls (blocking, non-blocking, negative intervals) on any number of Process
    objects, with any cpu_count() answers (also changing between calls -- the defect repaired by
-   /repo commit 8e92b46): each result is the demanded one, computed from the history of that
+   /repo commit 8e92b46): each result is the demanded one (spec_proc_pct: delta(user+system) only,
+   whatever children_user / children_system / iowait do), computed from the history of that
    object alone (spec_proc_run looks only at earlier calls on the same object) *)
 Theorem C07_proc_percent_all_sequences : forall clk evs,
   Forall2 (out_eq Qeq) (proc_run clk [] evs) (spec_proc_run clk [] evs).
